@@ -227,7 +227,7 @@ def main(argv):
     jobs = [(prop, k, repo, tier) for k in range(len(contracts))]
     nproc = max(1, min(int(os.environ.get("VERIF_JOBS", "8")), len(jobs)))
     # watchdog: a contract that does not finish within the budget is reported as undecided (never as held)
-    budget = int(os.environ.get("VERIF_CONTRACT_TIMEOUT", "1800" if tier != "thorough" else "5400"))
+    budget = int(os.environ.get("VERIF_CONTRACT_TIMEOUT", "900" if tier != "thorough" else "3600"))
     deadline = time.time() + budget
     if nproc >= 1 and len(jobs) > 0:
         pool = mp.Pool(nproc)
